@@ -39,6 +39,12 @@ def _run(r):
     kw = _kw(kind, cfg)
     bad = []
     est = C(**kw)
+    if cfg.get("cap"):
+        cap = int(cfg["cap"])
+
+        def _set(token_sequences, est=est):
+            est._coo_sizes = np.full(est._n_wide, cap, dtype=np.int64)
+        est._set_coo_sizes = _set
     try:
         M = est.fit_transform(X)
     except ValueError as e:
@@ -46,7 +52,7 @@ def _run(r):
             return None, None, []
         raise
     V = len(est.token_label_dictionary_)
-    if M.shape[0] != V or M.shape[1] % max(V, 1) != 0:
+    if (kind != "ngram" and M.shape[0] != V) or M.shape[1] % max(V, 1) != 0:
         bad.append("fit_transform shape %s with %d tokens" % (M.shape, V))
     if not np.all(np.isfinite(M.data)):
         bad.append("non-finite cells")
